@@ -29,7 +29,14 @@ def stages(tier, seed, bins):
         k = max(3, max(td + 1, min(k, N - 1)))
         c = base(rnd, mode="lin", method=m, N=N, D=D, td=td, k=k, data=rnd.choice(["mix", "mix", "gauss", "swiss"]),
                  offset=rnd.choice([0, 0, 1, 5]), nm=rnd.choice(["brute", "vptree", "covertree"]), em="dense",
-                 width=rnd.choice([0.5, 2.0, 20.0]), rotate=1)
+                 width=rnd.choice([0.02, 0.1, 0.5, 2.0, 20.0, 500.0]), rotate=1)
+        if rnd.random() < 0.2:
+            c["xscale"] = rnd.choice([1e-3, 30.0])
+        if m == "lpp" and rnd.random() < 0.35:
+            # uniform neighbour distances (jittered unit grid) with a width far below them: every heat weight is tiny (1e-18 ...
+            # 1e-130) but none underflows; the pencil is invariant to the common factor
+            c.update(data="jgrid", D=rnd.choice([3, 5]), td=rnd.choice([1, 2]), k=rnd.choice([4, 6, 8]), width=rnd.choice([0.025, 0.01, 0.0035]))
+            c.pop("xscale", None)
         if c["data"] == "swiss":
             c["D"] = 3
             c["td"] = min(c["td"], 2)
